@@ -74,3 +74,8 @@ claim("C10",
       "For every collection of fragments: the merge can only slice within bounds (both bounds entailed by dominating guards), the coverage frontier never moves backwards (so contained/overlapping fragments cannot cause a false gap), fragments of fragments keep original coordinates (value dependence on the input's offset/total), and the store de-duplicates parts before collecting. These are necessary conditions; equality of the reassembled payload is not decided.",
       "Not decided: that the returned payload equals the original for covering sets.",
       "DESIGN.md §3 C10")
+claim("C11",
+      "path enumeration of OutgoingTransfer.NextSegment (END/START typestate), guarded-return dominance in TransferManager.Send, receiver typestate by guarded-call dominance, who-may-write inventories of the two flags, value-flow of the segment buffer",
+      "Necessary conditions for every length/segment-size pair and every path: a full segment can carry END (the divisor case), partial reads always do, START only on the first segment; Send's success returns are dominated by acknowledged == sent with the sent length reported only after EOF; the receiver hands a bundle up only after END and a successful parse and never appends data of foreign or finished transfers; segment data never exceeds the negotiated size.",
+      "Not decided: that the concatenation equals the encoding, behaviour under concurrency and faults, the peer's conformance.",
+      "DESIGN.md §3 C11")
